@@ -279,7 +279,7 @@ def random_cfg(rng: typing.Any, stratum: str) -> typing.Any:
     for k in ("connect", "read", "status", "other"):
         if rng.random() < 0.5:
             cfg[k] = rng.choice(INTS)
-    cfg["allowed_methods"] = rng.choice(["default", "default", "none", ["POST"], ["GET", "POST"]])
+    cfg["allowed_methods"] = rng.choice(["default", "default", "none", ["POST"], ["GET", "POST"], [], []])  # []: an explicit empty set = retry no method after it may have reached the server
     cfg["status_forcelist"] = rng.choice([[], [503], [503], [500, 503]])
     if rng.random() < 0.3:
         cfg["raise_on_status"] = False
